@@ -3,15 +3,25 @@
    lifecycle model, for every configuration, script and oracle.
 
    Part 0  generic tools shared with StopRun.v / RpcRun.v:
-           - tri: Hoare triples with a separate postcondition for a crash;
-           - trace predicates closed under the monad (tptac);
-           - sx: a symbolic executor for the functions working on one process
-             that follows its state, its record AND the effects appended.
-   Part A1 fork_only_from_spawn_states (trace shape, every run).
-   Part A2 fatal_only_when_retries_exhausted (spec of transition).
-   Part A3 backoff_counter_law.
-   Part A4 autorestart_decision (spec of transition).
-   Part A5 no_spontaneous_start. *)
+     0a tri: Hoare triples with a separate postcondition for a crash;
+     0b trace predicates closed under the monad (TP, ctac);
+     0c sx: a symbolic executor for the functions working on one process that
+        follows its state, its record AND the effects appended (xstep/xrun);
+     0d KX: a generic upper layer: an invariant X kept by the process-level
+        operations (hypotheses, proved per invariant with sx) holds, together
+        with InvProofs.K, after every pass (pass_kx).
+   A1 fork_only_from_spawn_states        (trace shape, every run)
+   A2 fatal_only_when_retries_exhausted, exhausted_backoff_becomes_fatal
+      (exact spec of transition in BACKOFF: transition_backoff_spec)
+   A3 backoff_counter_law, retry_not_before_backoff_seconds   (every run)
+   A4 autorestart_decision, autostart_decision, fatal_stays_down,
+      nothing_started_while_shutting_down (specs of transition);
+      started_once_laststart_positive, stopped_after_start_not_autostarted
+      (every run whose readings exceed startsecs; laststart_can_return_to_zero
+      shows that readings > 0 alone are not enough)
+   A5 no_spontaneous_start_run           (every run)
+   pend_no_todo_run: K and "no stored deferred answer has a first round left"
+   at every boundary. *)
 From Coq Require Import ZArith List Bool Lia Arith ZifyBool.
 Import ListNotations.
 Require Import SV.Life.Model SV.Life.Inv SV.Life.ProcLemmas SV.Life.Trace SV.Life.Quiet
@@ -1786,6 +1796,242 @@ Qed.
 
 End BackoffRun.
 
+Ltac kfstates HPI s :=
+  pose proof HPI as (_ & _ & Hlive & Hdead); destruct s; cbn [live_state dead_state] in Hlive, Hdead;
+  pcbv_in Hlive; pcbv_in Hdead; try specialize (Hlive eq_refl); try specialize (Hdead eq_refl); try subst.
+
+(* ====================================================================== *)
+(* Part A4 (the invariant it needs): a process that was started once has laststart > 0, provided every clock
+   reading of the script is positive and larger than every startsecs (in ticks).  The second condition
+   cannot be dropped: see laststart_can_return_to_zero below. *)
+Definition started (j : nat) (o : list effect) : Prop := exists s x e, In (EState j s STARTING x e) o.
+Definition ls_loc (j : nat) (p : proc) (o : list effect) : Prop := started j o -> 0 < laststart p.
+
+Ltac lsleaf :=
+  unfold ls_loc, started in *; pcbv;
+  repeat match goal with |- _ /\ _ => split end;
+  first [ let H := fresh "H" in intros H; first [ lia |
+            match goal with Hls : _ -> 0 < _ |- _ => apply Hls end;
+            let s0 := fresh "s0" in let x0 := fresh "x0" in let e0 := fresh "e0" in let Hin := fresh "Hin" in
+            destruct H as (s0 & x0 & e0 & Hin); cbn [In] in Hin;
+            repeat (destruct Hin as [Hin | Hin]; [discriminate Hin|]); eauto ]
+        | let j' := fresh "j'" in let Hj := fresh "Hj" in let s0 := fresh "s0" in let x0 := fresh "x0" in
+          let e0 := fresh "e0" in let Hin := fresh "Hin" in
+          intros j' Hj (s0 & x0 & e0 & Hin); cbn [In] in Hin;
+          repeat (destruct Hin as [Hin | Hin]; [try discriminate Hin; exfalso; injection Hin; intros; congruence|]); eauto ].
+
+Section LastStart.
+Variable U : Z.
+Variable pconfs : list pconf.
+Variable gconfs : list gconf.
+Notation cf := (Model.cf pconfs).
+Notation run := (Model.run U pconfs gconfs).
+
+Definition big (t : Z) : Prop := 0 < t /\ forall j, c_startsecs (cf j) * U < t.
+Definition LS (w : world) : Prop := big (now w) /\ forall j, ls_loc j (procs w j) (out w).
+
+Definition lspost {A} (j : nat) (o : list effect) : spost A :=
+  fun _ _ p' o' => ls_loc j p' o' /\ (forall j', j' <> j -> started j' o' -> started j' o).
+
+Ltac lsstart p Hf Hbig j :=
+  pdestr p; unfold lspost; unfold ls_loc in Hf; pcbv_in Hf;
+  let Hb1 := fresh "Hb1" in let Hb2 := fresh "Hb2" in destruct Hbig as [Hb1 Hb2]; specialize (Hb2 j).
+
+Lemma transition_ls j s p o t md :
+  PI s p -> big t -> ls_loc j p o -> sx j (Model.transition U pconfs j) s p o t md (lspost j o).
+Proof.
+  intros HPI Hbig Hf. lsstart p Hf Hbig j. kfstates HPI s.
+  all: unfold Model.transition, Model.spawn, Model.give_up, Model.kill; cbv zeta.
+  all: xstep; xstep; apply sx_rollback; cbn [adjust_times]; pcbv; padj.
+  all: xrun.
+  all: try solve [lsleaf].
+  all: try xarith.
+Qed.
+
+Lemma spawn_ls j s p o t md :
+  PI s p -> big t -> ls_loc j p o -> spawnable s = true \/ s = STOPPING ->
+  sx j (Model.spawn U pconfs j) s p o t md (lspost j o).
+Proof.
+  intros HPI Hbig Hf Hs. lsstart p Hf Hbig j. kfstates HPI s.
+  all: destruct Hs as [Hs | Hs]; try discriminate Hs.
+  all: unfold Model.spawn; xrun.
+  all: try solve [lsleaf].
+  all: try xarith.
+Qed.
+
+Lemma stop_ls j s p o t md :
+  PI s p -> big t -> ls_loc j p o -> killable s = true -> sx j (Model.stop U pconfs j) s p o t md (lspost j o).
+Proof.
+  intros HPI Hbig Hf Hs. lsstart p Hf Hbig j. kfstates HPI s; try discriminate Hs.
+  all: unfold Model.stop, Model.kill; xrun.
+  all: try solve [lsleaf].
+  all: try xarith.
+Qed.
+
+Lemma give_up_ls j p o t md :
+  ls_loc j p o -> sx j (Model.give_up U j) BACKOFF p o t md (lspost j o).
+Proof. intros Hf. pdestr p. unfold lspost. unfold ls_loc in Hf. pcbv_in Hf. unfold Model.give_up. xrun. lsleaf. Qed.
+
+Lemma signal_ls j sg s p o t md :
+  PI s p -> ls_loc j p o -> in_signallable_states s = true -> sx j (Model.signal U j sg) s p o t md (lspost j o).
+Proof.
+  intros HPI Hf Hs. pdestr p. unfold lspost. unfold ls_loc in Hf. pcbv_in Hf. kfstates HPI s; try discriminate Hs.
+  all: unfold Model.signal; xrun.
+  all: try solve [lsleaf].
+  all: try xarith.
+Qed.
+
+Lemma rollback_ls j s p o t md :
+  big t -> ls_loc j p o -> sx j (Model.rollback_adjust U pconfs j t) s p o t md (lspost j o).
+Proof.
+  intros Hbig Hf. lsstart p Hf Hbig j. apply sx_tail. apply sx_rollback.
+  destruct s; cbn [adjust_times]; pcbv; padj; xrun.
+  all: try solve [lsleaf].
+Qed.
+
+Lemma finish_ls j st s p o t md :
+  PI s p -> big t -> ls_loc j p o -> pid p <> 0 -> sx j (Model.finish U pconfs j st) s p o t md (lspost j o).
+Proof.
+  intros HPI Hbig Hf Hp. lsstart p Hf Hbig j. kfstates HPI s; pcbv_in Hp; try congruence.
+  all: unfold Model.finish; cbv zeta.
+  all: xstep; apply sx_rollback; cbn [adjust_times]; pcbv; padj.
+  all: xrun.
+  all: try solve [lsleaf].
+  all: try (exfalso; destruct HPI as (_ & Hk2 & _); pcbv_in Hk2; destruct (Hk2 eq_refl); discriminate).
+  all: try (exfalso; destruct HPI as (Hk1 & _); pcbv_in Hk1; specialize (Hk1 eq_refl); discriminate).
+  all: try (exfalso; unfold too_quickly in *;
+            match goal with H : (if ?c then _ else _) = true |- _ => destruct c eqn:? end; lia).
+Qed.
+
+Lemma ls_of_sx {A} j (m : Model.M A) (Pre : pstate -> proc -> Z -> Prop) :
+  (forall s p o t md, PI s p -> big t -> ls_loc j p o -> Pre s p t -> sx j m s p o t md (lspost j o)) ->
+  xp LS (fun w => Pre (sts w j) (procs w j) (now w)) m.
+Proof.
+  intros H w a w' HK [Hn HF] HP E.
+  destruct (H _ _ _ _ _ (k_pi w HK j) Hn (HF j) HP w eq_refl eq_refl eq_refl eq_refl eq_refl)
+    as (a2 & w2 & E2 & (f1 & f2 & f3 & f4) & (Q1 & Q2)).
+  rewrite E2 in E. inversion E; subst a2 w2. split; [rewrite f1; exact Hn|].
+  intros j'. destruct (Nat.eq_dec j' j) as [-> | Hj]; [exact Q1|]. destruct (f4 j' Hj) as [_ ->].
+  intros Hst. apply HF. apply Q2; assumption.
+Qed.
+
+Lemma started_upper j e o : upper e -> started j (e :: o) -> started j o.
+Proof. intros He (s & x & b & [Hin | Hin]); [subst e; destruct He | exists s, x, b; exact Hin]. Qed.
+
+Lemma LS_emit e w : upper e -> LS w -> LS (set_out (e :: out w) w).
+Proof.
+  intros He [Hn HF]. split; [exact Hn|]. intros j Hst. apply HF. cbn in Hst. eapply started_upper; eassumption.
+Qed.
+Lemma LS_modw w w' : sts w' = sts w -> procs w' = procs w -> now w' = now w -> out w' = out w -> LS w -> LS w'.
+Proof. unfold LS. intros _ -> -> -> H. exact H. Qed.
+
+Lemma LS_transition j : xp LS (fun _ => True) (Model.transition U pconfs j).
+Proof.
+  intros w a w' HK HX _ E.
+  apply (ls_of_sx j (Model.transition U pconfs j) (fun _ _ _ => True)) with (w := w) (a := a); auto.
+  intros. apply transition_ls; assumption.
+Qed.
+Lemma LS_stop j s : killable s = true -> xp LS (fun w => sts w j = s) (Model.stop U pconfs j).
+Proof.
+  intros Hk w a w' HK HX Hs E.
+  apply (ls_of_sx j (Model.stop U pconfs j) (fun s' _ _ => s' = s)) with (w := w) (a := a); auto.
+  intros s0 p o t md HPI Hb Hf ->. apply stop_ls; assumption.
+Qed.
+Lemma LS_give_up j : xp LS (fun w => sts w j = BACKOFF) (Model.give_up U j).
+Proof.
+  intros w a w' HK HX Hs E.
+  apply (ls_of_sx j (Model.give_up U j) (fun s' _ _ => s' = BACKOFF)) with (w := w) (a := a); auto.
+  intros s0 p o t md HPI Hb Hf ->. apply give_up_ls; assumption.
+Qed.
+Lemma LS_signal j sg s : in_signallable_states s = true -> xp LS (fun w => sts w j = s) (Model.signal U j sg).
+Proof.
+  intros Hk w a w' HK HX Hs E.
+  apply (ls_of_sx j (Model.signal U j sg) (fun s' _ _ => s' = s)) with (w := w) (a := a); auto.
+  intros s0 p o t md HPI Hb Hf ->. apply signal_ls; assumption.
+Qed.
+Lemma LS_rollback j w0 : xp LS (fun w => w = w0) (Model.rollback_adjust U pconfs j (now w0)).
+Proof.
+  intros w a w' HK HX Hw E. subst w0.
+  apply (ls_of_sx j (Model.rollback_adjust U pconfs j (now w)) (fun _ _ t => t = now w)) with (w := w) (a := a); auto.
+  intros s0 p o t md HPI Hb Hf ->. apply rollback_ls; assumption.
+Qed.
+Lemma LS_spawn j s : True -> spawnable s = true \/ s = STOPPING -> xp LS (fun w => sts w j = s) (Model.spawn U pconfs j).
+Proof.
+  intros _ Hk w a w' HK HX Hs E.
+  apply (ls_of_sx j (Model.spawn U pconfs j) (fun s' _ _ => s' = s)) with (w := w) (a := a); auto.
+  intros s0 p o t md HPI Hb Hf ->. apply spawn_ls; assumption.
+Qed.
+
+Lemma LS_reap fuel : xp LS (fun _ => True) (Model.reap U pconfs fuel).
+Proof.
+  induction fuel as [|f IH]; intros w a w' HK HX _ E; [inversion E; subst; exact HX|].
+  cbn [Model.reap] in E. unfold bind at 1 in E. unfold getw at 1 in E.
+  destruct (zombies w) as [|[zp st] rest] eqn:Ez; [inversion E; subst; exact HX|].
+  unfold bind at 1 in E. unfold modw at 1 in E. unfold bind at 1 in E. unfold emit at 1 in E.
+  set (w1 := set_out _ _) in E.
+  assert (I1 : inertw w w1) by (subst w1; repeat split; cbn; lia).
+  assert (K1 : K w1) by (eapply K_inert; eassumption).
+  assert (X1 : LS w1).
+  { destruct HX as [Hn HF]. subst w1. split; [exact Hn|]. intros j (s & x & b & [Hin | Hin]); [discriminate Hin|].
+    apply HF. exists s, x, b. exact Hin. }
+  destruct (lookup_hist zp (pidhist w)) as [j|] eqn:EL.
+  - apply lookup_hist_in in EL.
+    destruct (finish_run U pconfs j zp st w1 K1 EL) as (w2 & E2 & Ep0 & K3).
+    unfold bind at 1 in E. rewrite E2 in E. unfold bind at 1 in E. unfold modw at 1 in E.
+    assert (X2 : LS w2).
+    { apply (ls_of_sx j (Model.finish U pconfs j st) (fun _ p _ => pid p <> 0)) with (w := w1) (a := tt); auto.
+      - intros. apply finish_ls; assumption.
+      - destruct (k_hist w1 K1 zp j EL). lia. }
+    eapply (IH _ a w' K3); [exact X2 | exact Logic.I | exact E].
+  - eapply (IH _ a w' K1); [exact X1 | exact Logic.I | exact E].
+Qed.
+
+Definition LSP (w : world) : Prop := forall j, ls_loc j (procs w j) (out w).
+
+Theorem laststart_step w o :
+  big (p_now o) -> K w -> Forall def_ok (pend w) -> LSP w ->
+  let w' := Model.step U pconfs gconfs w o in K w' /\ Forall def_ok (pend w') /\ LSP w'.
+Proof.
+  intros Hb HK HP HX. cbv zeta. unfold Model.step. destruct (crashed w || exited w); [auto|].
+  destruct (pass_kx U pconfs gconfs LS (fun _ => True) LS_emit LS_modw LS_transition LS_stop LS_give_up
+                    LS_signal LS_rollback LS_reap LS_spawn o w) as (w' & E & K' & X' & P'); auto.
+  - apply Forall_forall. intros a _. apply act_ok_all.
+  - split; [split; [exact Hb | exact HX] | exact HP].
+  - rewrite E. destruct X' as [_ X']. auto.
+Qed.
+
+(* every reading of the script is positive and exceeds every startsecs *)
+Definition big_readings (ops : list passop) : Prop := Forall (fun o => big (p_now o)) ops.
+
+Theorem started_once_laststart_positive ops j :
+  big_readings ops ->
+  let w := run ops in started j (out w) -> 0 < laststart (procs w j).
+Proof.
+  intros Hb. cbv zeta. unfold Model.run.
+  assert (H0 : K world0 /\ Forall def_ok (pend world0) /\ LSP world0).
+  { split; [apply K_world0 | split; [constructor|]]. intros j' (s & x & b & [Hin | []]). discriminate Hin. }
+  revert H0. generalize world0.
+  induction Hb as [|o ops Ho Hb IH]; intros w (HK & HP & HX); cbn [fold_left]; [apply HX|].
+  apply IH. apply laststart_step; assumption.
+Qed.
+
+(* A4, closed: at a boundary of a run with such readings, a STOPPED process that was started before - in
+   particular one stopped by the administrator - is left exactly as it is by the next `transition` *)
+Corollary stopped_after_start_not_autostarted ops j :
+  big_readings ops ->
+  let w := run ops in
+  sts w j = STOPPED -> started j (out w) ->
+  exists w', Model.transition U pconfs j w = (Some tt, w') /\ fr j w w' /\ unchanged j w w'.
+Proof.
+  intros Hb. cbv zeta. intros Hs Hst.
+  pose proof (started_once_laststart_positive ops j Hb Hst) as Hl.
+  apply stopped_after_start_stays_down; [exact Hs | | lia].
+  destruct (pend_no_todo_run U pconfs gconfs ops) as [HK _].
+  destruct (k_pi _ HK j) as (_ & _ & _ & d). apply d. rewrite Hs. reflexivity.
+Qed.
+
+End LastStart.
+
 (* ====================================================================== *)
 (* Examples: the hypotheses of the theorems above are satisfiable on concrete runs *)
 Definition ex_nf : pconf := mkConf 1 0 10 15 999 true ARUnexpected [0] false false CmdNotFound 0%nat.
@@ -1872,3 +2118,15 @@ Example stopped_process_respawned_after_rollback :
   let w := Model.run 10 [ex_ok] ex_g ops in
   In (EAns 1 0) (out w) /\ sts w 0%nat = STARTING /\ pid (procs w 0%nat) = 1001.
 Proof. vm_compute. repeat split. auto 10. Qed.
+
+(* the hypotheses of started_once_laststart_positive / stopped_after_start_not_autostarted: readings above
+   startsecs * U = 10, a process stopped by the administrator *)
+Example stopped_after_start_not_autostarted_example :
+  let ops := [mkPass 15 [] [0] []; mkPass 40 [ARpc 1 (RStop 0%nat false)] [] [0]] in
+  let w := Model.run 10 [ex_ok] ex_g ops in
+  big_readings 10 [ex_ok] ops /\ sts w 0%nat = STOPPED /\ started 0%nat (out w) /\ laststart (procs w 0%nat) = 15.
+Proof.
+  split; [|vm_compute; split; [reflexivity | split; [|reflexivity]]].
+  - repeat constructor; intros j; destruct j as [|[|j]]; vm_compute; reflexivity.
+  - exists STOPPED, 0, true. cbn. tauto.
+Qed.
